@@ -43,48 +43,12 @@ def pairwiseNe {α : Type} (eq : α → α → Bool) : List α → Bool
   | [] => true
   | x :: xs => xs.all (fun y => !eq x y) && pairwiseNe eq xs
 
-/-- does the case / choice with data ids `ds` have data among the siblings? -/
-def hasData (sibs : List DNode) (ds : List Nat) : Bool := sibs.any (inSids ds)
-
-/-! ### `unique`: the value of a listed leaf in one list entry, with "default in use" per §7.6.1 -/
-
-/-- schema path (choice and case included) from one of `ks` down to the node `target` -/
-def pathTo : (fuel : Nat) → List STree → Nat → Option (List STree)
-  | 0, _, _ => none
-  | _ + 1, [], _ => none
-  | fuel + 1, k :: ks, target =>
-    if k.sid == target then some [k]
-    else match pathTo fuel k.kids target with
-      | some p => some (k :: p)
-      | none => pathTo fuel ks target
-
-/-- walk the schema path inside the entry; `none` = the leaf has no value there and no default in use -/
-def specLeafVal : List STree → (lvl : List DNode) → Option Bytes
-  | [], _ => none
-  | [leaf], lvl =>
-    match lvl.find? (·.sid == leaf.sid) with
-    | some d => some d.val
-    | none => leaf.info.dflts.head?
-  | k :: rest, lvl =>
-    match k.info.kind with
-    | .container =>
-      match lvl.find? (·.sid == k.sid) with
-      | some c => specLeafVal rest c.kids
-      | none => if k.info.presence then none else specLeafVal rest []
-    | .choice =>
-      match rest with
-      | cs :: rest' =>
-        if hasData lvl k.dataSids then
-          (if hasData lvl cs.dataSids then specLeafVal rest' lvl else none)
-        else if k.info.dfltCase == some cs.info.name then specLeafVal rest' lvl
-        else none
-      | [] => none
-    | _ => none
+/-! ### `unique` (the value of a listed leaf in one list entry, with "default in use" per §7.6.1: `leafValInUse`, LyModel/Valid/Final.lean) -/
 
 def specTuple (lst : STree) (u : List Nat) (entry : DNode) : Option (List Bytes) :=
   u.mapM fun leaf =>
     match pathTo (u.length + 64) lst.kids leaf with
-    | some p => specLeafVal p entry.kids
+    | some p => leafValInUse p entry.kids
     | none => none
 
 /-- no two entries agree on a complete tuple -/
